@@ -227,7 +227,7 @@ func tssFam() famDef {
 }
 
 func kemFam(s kem.Scheme) famDef {
-	return famDef{name: "kem/" + s.Name(), kinds: []string{"decap", "encap", "pub", "marshal"}, build: func(seed uint64) *shared {
+	return famDef{name: "kem/" + s.Name(), kinds: []string{"decap", "encap", "pub", "marshal", "own"}, build: func(seed uint64) *shared {
 		r := core.NewPRNG(seed)
 		pk0, sk0 := s.DeriveKeyPair(r.Bytes(s.SeedSize()))
 		pb, _ := pk0.MarshalBinary()
@@ -247,12 +247,27 @@ func kemFam(s kem.Scheme) famDef {
 			},
 			"pub":     func(uint64) []byte { b, _ := sk.Public().MarshalBinary(); return b[:32] },
 			"marshal": func(uint64) []byte { b, _ := pk.MarshalBinary(); return b[:32] },
+			// a key pair of the task's own (nothing is shared with the other tasks but the scheme
+			// and whatever the package keeps globally): derive, encapsulate, decapsulate
+			"own": func(a uint64) []byte {
+				opk, osk := s.DeriveKeyPair(core.NewPRNG(seed + 1000 + a).Bytes(s.SeedSize()))
+				c, ss1, err := s.EncapsulateDeterministically(opk, core.NewPRNG(seed+2000+a).Bytes(s.EncapsulationSeedSize()))
+				if err != nil {
+					return []byte("err")
+				}
+				ss2, err := s.Decapsulate(osk, c)
+				if err != nil {
+					return []byte("err2")
+				}
+				pb, _ := opk.MarshalBinary()
+				return append(append(append(pb[:16:16], c[:16]...), ss1...), ss2...)
+			},
 		}}
 	}}
 }
 
 func signFam(s sign.Scheme) famDef {
-	return famDef{name: "sign/" + s.Name(), kinds: []string{"sign", "verify", "pub"}, build: func(seed uint64) *shared {
+	return famDef{name: "sign/" + s.Name(), kinds: []string{"sign", "verify", "pub", "own"}, build: func(seed uint64) *shared {
 		pk0, sk0 := s.DeriveKey(core.NewPRNG(seed).Bytes(s.SeedSize()))
 		pb, _ := pk0.MarshalBinary()
 		sb, _ := sk0.MarshalBinary()
@@ -265,6 +280,11 @@ func signFam(s sign.Scheme) famDef {
 			"sign":   func(a uint64) []byte { return s.Sign(sk, msgOf(a), nil) },
 			"verify": func(a uint64) []byte { return b2(s.Verify(pk, msgOf(a), s.Sign(sk0, msgOf(a), nil), nil)) },
 			"pub":    func(uint64) []byte { b, _ := sk.Public().(sign.PublicKey).MarshalBinary(); return b[:32] },
+			"own": func(a uint64) []byte {
+				opk, osk := s.DeriveKey(core.NewPRNG(seed + 1000 + a).Bytes(s.SeedSize()))
+				sg := s.Sign(osk, msgOf(a), nil)
+				return append(sg[:32:32], b2(s.Verify(opk, msgOf(a), sg, nil))...)
+			},
 		}}
 	}}
 }
